@@ -1,5 +1,70 @@
-import RSVerif.Basic
-/- C15: line-protocol driver (stub) -/
+import RSVerif.Model.Slot
+/- line protocol for C15: what the *specification* predicts for each case of go/harness/c15.go -/
 namespace RSVerif.Drive.C15
-def handle (_line : String) : String := "unimplemented"
+open RSVerif RSVerif.Spec.Slot RSVerif.Slot
+
+def hex4 (x : UInt16) : String := toHex [(x >>> 8).toUInt8, x.toUInt8]
+
+def hexList (s : String) : Option (List Bytes) :=
+  if s == "-" then some [] else (s.splitOn ",").mapM ofHex
+
+def natList (s : String) : Option (List Nat) :=
+  if s == "-" then some [] else (s.splitOn ",").mapM String.toNat?
+
+def boolStr (b : Bool) : String := if b then "true" else "false"
+
+/-- upper bound on the iterations of the latency key search explored by the driver -/
+def latencyFuel : Nat := 2000000
+
+/-- first `i` (from `i`, at most `fuel` tries) whose latency key has its SPEC slot in `[l, r]` -/
+def latencySpecFrom (l r : Int) : Nat → Nat → Option Bytes
+  | 0, _ => none
+  | fuel + 1, i =>
+    if inRange l r (slotSpec (latencyKey i)) then some (latencyKey i) else latencySpecFrom l r fuel (i + 1)
+
+def handle (line : String) : String :=
+  match line.splitOn " " with
+  | ["slot", h] =>
+    match ofHex h with
+    | some k =>
+      -- the specification: one slot, one CRC; every implementation has to print exactly these
+      let s := slotSpec k
+      let c := hex4 (crc16 k)
+      s!"slot={s} common={c} latency={c} ext={s}"
+    | none => "badcase"
+  | ["chose", p, l, r] =>
+    match ofHex p, l.toInt?, r.toInt? with
+    | some pre, some l, some r =>
+      let key := choseSlotInRange pre l r
+      let inr := !key.isEmpty && inRange l r (slotSpec key)
+      let f0 := filterKey [] [] key
+      let f1 := filterKey [] ["user:".toUTF8.toList] key
+      let f2 := filterKey ["zzz".toUTF8.toList] [] key
+      let out := s!"key={hexOrDash key} inrange={boolStr inr} filtered={boolStr f0},{boolStr f1},{boolStr f2}"
+      -- the property: for the checkpoint prefix and every range 0 ≤ l ≤ r ≤ 16383 a non-empty key,
+      -- in range, excluded by the filter under every configuration
+      if pre = Generated.C15.checkpointKey ∧ 0 ≤ l ∧ l ≤ r ∧ r ≤ 16383 ∧ !(inr && f0 && f1 && f2) then
+        "spec-requires-nonempty-inrange-filtered-key; model gives: " ++ out
+      else out
+    | _, _, _ => "badcase"
+  | ["filter", k, m, ls] =>
+    match ofHex k, hexList ls with
+    | some key, some l =>
+      boolStr (if m == "b" then filterKey l [] key else if m == "w" then filterKey [] l key else filterKey [] [] key)
+    | _, _ => "badcase"
+  | ["fslot", k, ls] =>
+    match ofHex k, natList ls with
+    | some key, some l =>
+      -- FilterSlot: no list ⇒ everything passes; else exactly the keys whose slot is listed pass
+      boolStr (if l.isEmpty then false else !(l.contains (slotSpec key)))
+    | _, _ => "badcase"
+  | ["latency", l, r] =>
+    match l.toInt?, r.toInt? with
+    | some l, some r =>
+      match latencySpecFrom l r latencyFuel 0 with
+      | some key => "key=" ++ hexOrDash key
+      | none => "spec-requires-a-key-in-range"
+    | _, _ => "badcase"
+  | _ => "badcase"
+
 end RSVerif.Drive.C15
